@@ -134,8 +134,15 @@ pub fn format_return(ctx: &Context, return_node: &Return, shape: Shape) -> Retur
                             .over_budget()
                     {
                         // Hang the pair, using the original expression for formatting
+                        // Any comments trailing the expression have already been moved to after the punctuation
+                        let comments_moved = formatted.punctuation().is_some();
                         formatted = formatted.map(|_| {
                             let expression = hang_expression(ctx, original, shape, Some(1));
+                            let expression = if comments_moved {
+                                expression.update_trailing_trivia(FormatTriviaType::Replace(vec![]))
+                            } else {
+                                expression
+                            };
                             if idx == 0 {
                                 expression
                             } else {
